@@ -1,6 +1,11 @@
 # the portable variant divides by an operand after a zero test: make a lost zero test a trap even where the compiler
 # folds the division away
-rc_target("c16_math", flavour="asan", cxxflags=["-fsanitize=integer-divide-by-zero"])
+# ASAN_OPTIONS: the library code under test is pure arithmetic (no heap), so the harness does not need allocation stack
+# traces or a large quarantine; with the defaults every worker grows by ~20 kB per case (rapidcheck's deep, ever-different
+# allocation stacks fill ASan's stack depot) and a thorough run was OOM-killed at 2.2 GB per worker.
+rc_target("c16_math", flavour="asan", cxxflags=["-fsanitize=integer-divide-by-zero"],
+          env={"ASAN_OPTIONS": "detect_leaks=0:abort_on_error=1:allocator_may_return_null=1:detect_stack_use_after_return=0:"
+                               "handle_abort=0:malloc_context_size=0:quarantine_size_mb=16"})
 plan("C16", [T("c16_math", 20000, 200000)], min_nt=14000,
      rule="operand pairs / conversions on three implementation variants side by side against unsigned __int128; "
           "non-trivial = a generated pair whose exact sum or product is within 2 of the type's MAX on either side, or a "
